@@ -164,6 +164,9 @@ func c16Unit(c *RunCtx, unit int) {
 					if v == 1 {
 						form["password"] = "00000000-00000000-00000000-00000000"
 					}
+					for k, x := range f {
+						form[k] = x
+					}
 					return world.Req{Method: "POST", Path: w.P("/otp/login"), Form: form}, ac.PID
 				})
 			}
@@ -188,12 +191,24 @@ func c16Unit(c *RunCtx, unit int) {
 				return world.Req{Method: "POST", Path: w.P("/login"), Form: form}, pid
 			})
 			if cfg.Has("otp") {
+				fo := map[string]string{}
+				extra(fo)
+				inQuery := r.Intn(2) == 0 && fo["redir"] != ""
 				pair("unknown-account-vs-wrong-otp", state, func(v int) (world.Req, string) {
 					pid := ac.PID
 					if v == 0 {
 						pid = "nobody-" + ac.PID
 					}
-					return world.Req{Method: "POST", Path: w.P("/otp/login"), Form: map[string]string{"email": pid, "password": "00000000-00000000-00000000-00000000"}}, pid
+					form := map[string]string{"email": pid, "password": "00000000-00000000-00000000-00000000"}
+					path := w.P("/otp/login")
+					for k, x := range fo {
+						if k == "redir" && inQuery {
+							path += "?redir=" + x
+							continue
+						}
+						form[k] = x
+					}
+					return world.Req{Method: "POST", Path: path, Form: form}, pid
 				})
 			}
 		}
